@@ -125,7 +125,7 @@ class Program:
         import linecache
 
         linecache.cache[mod.__file__] = (len(src), None, src.splitlines(True), mod.__file__)
-        exec(compile(src, mod.__file__, "exec"), mod.__dict__)
+        exec(compile(src, mod.__file__, "exec", dont_inherit=True), mod.__dict__)
         self.module = mod
         for s in self.specs:
             if s.t is None:
@@ -138,6 +138,13 @@ class Program:
 
     def ev(self, src):
         return eval(src, self.module.__dict__)
+
+    def run(self, src):
+        """Exec more source in the module, under the module's own annotation semantics (never the harness's __future__ flags)."""
+        import __future__
+
+        flags = __future__.annotations.compiler_flag if self.future else 0
+        exec(compile(src, self.module.__file__, "exec", flags=flags, dont_inherit=True), self.module.__dict__)
 
     def drop(self):
         sys.modules.pop(self.name, None)
@@ -896,8 +903,11 @@ def skeleton(spec, seen=None, depth=0):
 # valid values
 
 class ValueGen:
-    def __init__(self, rng, big_ints=True, max_len=4, budget=6):
+    def __init__(self, rng, big_ints=True, max_len=4, budget=6, flagged_patterns=False):
         self.rng, self.big_ints, self.max_len, self.budget = rng, big_ints, max_len, budget
+        # compiled patterns carrying compile flags / bytes patterns: valid re.Pattern VALUES whose wire form (the source text) cannot
+        #   carry the flags - only for workloads that do not send the value over the wire (pass-through, C13)
+        self.flagged_patterns = flagged_patterns
         self.last = {}  # last aware datetime/time handed out: source of "same instant, other offset" twins
 
     def _twin(self, name):
@@ -932,6 +942,13 @@ class ValueGen:
                     v = SCALARS[name][2](rng)
                 self.last[name] = v
                 return v
+            if name == "Pattern" and self.flagged_patterns and rng.random() < 0.6:
+                flags = 0
+                for f in rng.sample([re.I, re.M, re.S, re.X, re.A], rng.randrange(1, 3)):
+                    flags |= f
+                if rng.random() < 0.25:
+                    return re.compile(rng.choice(PATTERN_POOL).encode(), flags & ~re.A if rng.random() < 0.5 else 0)
+                return re.compile(rng.choice(PATTERN_POOL), flags)
             return SCALARS[name][2](rng)
         if k == "literal":
             return rng.choice(spec.info["members"])
